@@ -13,7 +13,7 @@ RULE = ("(stereo) random points on the sphere / in the plane incl. far and near-
         "both windings, x random complex a, b with |b| < |a| x random isometric embeddings of the target, plus non-planar meshes "
         "(ValueError); (lbs) planar grids whose column x = 0 is an interface, jittered elsewhere, x coefficient pairs (mu1, mu2), all "
         "boundary vertices as landmarks; (scm) closed genus-0 meshes (ellipsoids level 1-2, bumpy spheres, refined cube/octahedron, "
-        "jitter, both orientations) with one rotated+translated+scaled copy each, tori and open meshes (ValueError), Moebius area "
+        "jitter, both orientations) with one rotated+translated+scaled copy each; meshes of Euler characteristic 0, 1, 3, 4 (torus, annulus, open grid, sphere with one triangle removed, sphere + disk, two spheres: ValueError); Moebius area "
         "correction on a subset. distinct = hash of the case; non-trivial = every case except gate-only ones")
 TRUSTED = ["SuperLU (splu) is an oracle: the answers returned through linear_beltrami_solver are verified inside Coq against the model's "
            "system (residual, landmarks); scipy.optimize.minimize is an oracle checked only through the objective",
@@ -143,12 +143,21 @@ def generate(rng, tier):
         cases.append({"kind": "scm", "family": fam, "v": v, "t": t, "Q": Q.tolist(), "s": rng.choice([1.0, 0.05, 30.0]),
                       "off": [rng.uniform(-3, 3) for _ in range(3)], "mobius": i < (2 if q else 8),
                       "mobius_scale": [0.05, 1.0, 30.0][i % 3]})
-    for _ in range(3 if q else 10):
-        kind = rng.choice(["torus", "open", "two_spheres"])
+    kinds = ["torus", "open", "two_spheres", "sphere_with_hole", "annulus", "sphere_and_disk"]     # Euler characteristic 0, 1, 4, 1, 0, 3
+    for i in range(6 if q else 18):
+        kind = kinds[i % len(kinds)]
         if kind == "torus":
             v, t = gm.torus(rng.randint(4, 6), rng.randint(3, 5))
         elif kind == "open":
             v, t = gm.grid(3, 3, rng, "smooth", "alt")
+        elif kind == "sphere_with_hole":
+            v, t = gm.icosahedron() if rng.random() < 0.5 else gm.ellipsoid(1)
+            k = rng.randrange(len(t))
+            t = [list(r) for j, r in enumerate(t) if j != k]
+        elif kind == "annulus":
+            v, t = gm.annulus(rng.randint(4, 7))
+        elif kind == "sphere_and_disk":
+            v, t = gm.union([gm.octahedron(), gm.grid(2, 2)])
         else:
             v, t = gm.union([gm.octahedron(), gm.tetra_surface()])
         cases.append({"kind": "gate", "family": kind, "v": v, "t": t})
